@@ -27,68 +27,49 @@ private theorem forall_ev {P : (Atom → Bool) → Prop}
     (h : ∀ b0 b1 b2 b3 b4 b5 b6 b7 b8 b9 b10 b11 b12, P (evOf b0 b1 b2 b3 b4 b5 b6 b7 b8 b9 b10 b11 b12)) :
     ∀ ev, P ev := fun ev => ev_eq ev ▸ h ..
 
-/-! ### specification: what the settings demand, in order (hand-written) -/
-
-def lits (ks : List Kw) : List Tok := ks.map .lit
-
-/-- credentials in HELLO 3: `AUTH default <password>` when only a password is configured,
-    `AUTH <username> <password>` when a user name is configured, nothing otherwise -/
-def authArgs (ev : Atom → Bool) : List Tok :=
-  if ev .passOnly then lits [.k_AUTH, .k_default] ++ [.password]
-  else if ev .hasUser then lits [.k_AUTH] ++ [.username, .password] else []
-
-def hello3Spec (ev : Atom → Bool) : List Tok :=
-  lits [.k_HELLO, .k_3] ++ authArgs ev ++ (if ev .hasName then [.lit .k_SETNAME, .clientName] else [])
-
-def opt (c : Bool) (cmd : List Tok) : List (List Tok) := if c then [cmd] else []
-
-def setInfoSpec (ev : Atom → Bool) : List (List Tok) :=
-  if ev .setInfo2 then [lits [.k_CLIENT, .k_SETINFO, .k_LIB_NAME] ++ [.setInfo0], lits [.k_CLIENT, .k_SETINFO, .k_LIB_VER] ++ [.setInfo1]]
-  else if ev .setInfoNil then [lits [.k_CLIENT, .k_SETINFO, .k_LIB_NAME] ++ [.libName], lits [.k_CLIENT, .k_SETINFO, .k_LIB_VER] ++ [.libVer]]
-  else []
-
-/-- settings shared by both protocols, in the order the property lists them -/
-def commonSpec (ev : Atom → Bool) : List (List Tok) :=
-  opt (ev .selDB) [.lit .k_SELECT, .selectDB] ++ opt (ev .readonly) [.lit .k_READONLY] ++
-  opt (ev .noTouch) (lits [.k_CLIENT, .k_NO_TOUCH, .k_ON]) ++ opt (ev .noEvict) (lits [.k_CLIENT, .k_NO_EVICT, .k_ON]) ++
-  setInfoSpec ev
-
-def trackingSpec (ev : Atom → Bool) : List (List Tok) :=
-  opt (ev .cache) (if ev .trackNil then lits [.k_CLIENT, .k_TRACKING, .k_ON, .k_OPTIN] else lits [.k_CLIENT, .k_TRACKING, .k_ON] ++ [.trackingOpts])
-
-/-- RESP3: credentials (and name) ride on HELLO, which is first; then tracking, then the rest -/
-def required3 (ev : Atom → Bool) : List (List Tok) := [hello3Spec ev] ++ trackingSpec ev ++ commonSpec ev
-
-def auth2Spec (ev : Atom → Bool) : List (List Tok) :=
-  if ev .passOnly then [[.lit .k_AUTH, .password]] else if ev .hasUser then [[.lit .k_AUTH, .username, .password]] else []
-
-/-- RESP2: AUTH first, then HELLO 2, the name, then the rest -/
-def required2 (ev : Atom → Bool) : List (List Tok) :=
-  auth2Spec ev ++ [lits [.k_HELLO, .k_2]] ++ opt (ev .hasName) (lits [.k_CLIENT, .k_SETNAME] ++ [.clientName]) ++ commonSpec ev
-
 /-! ### token-level facts, decided over all valuations -/
-
-private theorem required3_sub : ∀ ev, List.Sublist (required3 ev) (plan3T ev).init ∧ (plan3T ev).init.head? = some (hello3Spec ev) :=
-  forall_ev (by decide +kernel)
-
-private theorem required2_sub : ∀ ev, List.Sublist (required2 ev) (plan2T ev).init ∧
-    (plan2T ev).init.take (auth2Spec ev).length = auth2Spec ev ∧ (plan2T ev).helloIndex = (auth2Spec ev).length :=
-  forall_ev (by decide +kernel)
 
 def isSetInfo : List Tok → Bool
   | .lit .k_CLIENT :: .lit .k_SETINFO :: _ => true
   | _ => false
 
+def headsOK (b : BuiltT) : Bool :=
+  (b.init.all fun c => match c with | .lit _ :: _ => true | _ => false) &&
+  ((b.init.take (checked b)).all fun c => !isSetInfo c) &&
+  ((b.init.drop (checked b)).all isSetInfo) && decide (0 < checked b)
+
+def tokenFacts (ev : Atom → Bool) : Bool :=
+  (required3 ev).isSublist (plan3T ev).init && ((plan3T ev).init.head? == some (hello3Spec ev)) &&
+  (required2 ev).isSublist (plan2T ev).init && ((plan2T ev).init.take (auth2Spec ev).length == auth2Spec ev) &&
+  ((plan2T ev).helloIndex == (auth2Spec ev).length) && headsOK (plan3T ev) && headsOK (plan2T ev)
+
+/-- one kernel evaluation over all 2^13 valuations of the guard conditions (about 90 s) -/
+private theorem token_facts_all :
+    ∀ b0 b1 b2 b3 b4 b5 b6 b7 b8 b9 b10 b11 b12, tokenFacts (evOf b0 b1 b2 b3 b4 b5 b6 b7 b8 b9 b10 b11 b12) = true := by
+  decide +kernel
+
+private theorem token_facts (ev : Atom → Bool) : tokenFacts ev = true :=
+  forall_ev (P := fun ev => tokenFacts ev = true) token_facts_all ev
+
+private theorem required3_sub (ev : Atom → Bool) :
+    List.Sublist (required3 ev) (plan3T ev).init ∧ (plan3T ev).init.head? = some (hello3Spec ev) := by
+  have h := token_facts ev
+  simp only [tokenFacts, Bool.and_eq_true, List.isSublist_iff_sublist, beq_iff_eq] at h
+  exact ⟨h.1.1.1.1.1.1, h.1.1.1.1.1.2⟩
+
+private theorem required2_sub (ev : Atom → Bool) : List.Sublist (required2 ev) (plan2T ev).init ∧
+    (plan2T ev).init.take (auth2Spec ev).length = auth2Spec ev ∧ (plan2T ev).helloIndex = (auth2Spec ev).length := by
+  have h := token_facts ev
+  simp only [tokenFacts, Bool.and_eq_true, List.isSublist_iff_sublist, beq_iff_eq] at h
+  exact ⟨h.1.1.1.1.2, h.1.1.1.2, h.1.1.2⟩
+
 /-- every command starts with a literal word (so `init[i][0] == "READONLY"/"CLIENT"` is a test on
     that literal), the unchecked replies are exactly those of the CLIENT SETINFO commands, and HELLO
     is inside the checked range -/
-theorem heads_are_literals : ∀ ev, ∀ b ∈ [plan3T ev, plan2T ev],
-    (b.init.all fun c => match c with | .lit _ :: _ => true | _ => false) = true ∧
-    ((b.init.take (checked b)).all fun c => !isSetInfo c) = true ∧
-    ((b.init.drop (checked b)).all isSetInfo) = true ∧ 0 < checked b := by
-  intro ev
-  revert ev
-  exact forall_ev (by decide +kernel)
+theorem heads_are_literals (ev : Atom → Bool) : headsOK (plan3T ev) = true ∧ headsOK (plan2T ev) = true := by
+  have h := token_facts ev
+  simp only [tokenFacts, Bool.and_eq_true] at h
+  exact ⟨h.1.2, h.2⟩
 
 /-! ### plan_contains_required_in_order -/
 
@@ -104,31 +85,38 @@ theorem plan_contains_required_in_order (o : Opt) (u p : String) :
     (plan2 o u p).take (auth2Spec ev).length = (auth2Spec ev).map (substCmd o u p) := by
   intro ev
   refine ⟨(required3_sub ev).1.map _, ?_, (required2_sub ev).1.map _, ?_⟩
-  · simp only [plan3, List.head?_map, (required3_sub ev).2, Option.map_some]
-  · simp only [plan2, ← List.map_take, (required2_sub ev).2.1]
+  · show (plan3 o u p).head? = _
+    simp only [plan3, List.head?_map]
+    rw [show (plan3T (evalAtom o u p)).init.head? = some (hello3Spec ev) from (required3_sub ev).2]
+    rfl
+  · show (plan2 o u p).take _ = _
+    simp only [plan2, ← List.map_take]
+    rw [show List.take (auth2Spec ev).length (plan2T (evalAtom o u p)).init = auth2Spec ev from (required2_sub ev).2.1]
 
 /-- credentials are what the spec says at string level: configured credentials (a user name or a
     password) are the first thing on a RESP3 connection -/
 theorem credentials_first (o : Opt) (u p : String) (h : u ≠ "" ∨ p ≠ "") :
-    ∃ rest tail, (plan3 o u p) = (["HELLO", "3", "AUTH", (if u = "" then "default" else u), p] ++ rest) :: tail := by
-  have h3 := (plan_contains_required_in_order o u p).2.1
-  match hp : plan3 o u p, h3 with
-  | [], h3 => simp [hp] at h3
-  | c :: tail, h3 =>
-    simp only [hp, List.head?_cons, Option.some.injEq] at h3
-    refine ⟨_, tail, ?_⟩
-    rw [h3]
-    by_cases hu : u = ""
-    · have hp' : p ≠ "" := by rcases h with h | h; exact absurd hu h; exact h
-      simp [hello3Spec, authArgs, evalAtom, hu, hp', substCmd, substTok, lits, Kw.str]
-      rfl
-    · simp [hello3Spec, authArgs, evalAtom, hu, substCmd, substTok, lits, Kw.str]
-      rfl
+    (plan3 o u p).head? = some (["HELLO", "3", "AUTH", (if u = "" then "default" else u), p] ++
+      (if o.clientName = "" then [] else ["SETNAME", o.clientName])) := by
+  rw [(plan_contains_required_in_order o u p).2.1]
+  by_cases hu : u = "" <;> by_cases hn : o.clientName = ""
+  · have hp' : p ≠ "" := by
+      rcases h with h | h
+      · exact absurd hu h
+      · exact h
+    simp [hello3Spec, authArgs, evalAtom, hu, hn, hp', substCmd, substTok, lits, Kw.str]
+  · have hp' : p ≠ "" := by
+      rcases h with h | h
+      · exact absurd hu h
+      · exact h
+    simp [hello3Spec, authArgs, evalAtom, hu, hn, hp', substCmd, substTok, lits, Kw.str]
+  · simp [hello3Spec, authArgs, evalAtom, hu, hn, substCmd, substTok, lits, Kw.str]
+  · simp [hello3Spec, authArgs, evalAtom, hu, hn, substCmd, substTok, lits, Kw.str]
 
 /-! ### the reply-evaluation loops -/
 
 private theorem loop2_ok (heads : List Head) (rs : Nat → Reply) (i : Nat) :
-    loop2.go heads rs i = .ok () →
+    loop2.go rs heads i = .ok () →
     ∀ j (hj : j < heads.length), heads[j] = .readonly ∨ (rs (i + j) ≠ .ioerr ∧ rs (i + j) ≠ .rerr false) := by
   induction heads generalizing i with
   | nil => intro _ j hj; simp at hj
@@ -213,5 +201,182 @@ private theorem loop3_ok_true (az : Bool) (heads : List Head) (rs : Nat → Repl
           | str => simp [hrep, err3] at hstep; split at hstep <;> simp_all; split at hstep <;> simp_all
       · exact .inr ⟨j + 1, by simpa using hj, by simpa [Nat.add_assoc, Nat.add_comm 1 j] using hrj⟩
     · cases hok
+
+/-! ### connect -/
+
+/-- replies of an attempt that `_newPipe` looks at: index below `checked` -/
+def heads3 (o : Opt) (u p : String) : List Head :=
+  ((plan3T (evalAtom o u p)).init.take (checked (plan3T (evalAtom o u p)))).map headOf
+def heads2 (o : Opt) (u p : String) : List Head :=
+  ((plan2T (evalAtom o u p)).init.take (checked (plan2T (evalAtom o u p)))).map headOf
+
+private theorem fallback_cases (o : Opt) (u p : String) (pre : List Cmd) (rs2 : Nat → Reply) :
+    ((fallback o u p pre rs2).res = .serving false →
+      o.disableCache = true ∧ (fallback o u p pre rs2).sent = pre ++ plan2 o u p ∧
+      ∀ j (hj : j < (heads2 o u p).length), (heads2 o u p)[j] = .readonly ∨ (rs2 j ≠ .ioerr ∧ rs2 j ≠ .rerr false)) ∧
+    (fallback o u p pre rs2).res ≠ .serving true := by
+  unfold fallback
+  by_cases hc : o.disableCache = true
+  · simp only [hc, Bool.not_true, Bool.false_eq_true, if_false]
+    cases hl : loop2 (heads2 o u p) rs2 0 with
+    | ok v =>
+      have := loop2_ok (heads2 o u p) rs2 0 (by cases v; simpa [loop2] using hl)
+      simp only [heads2] at hl
+      simp only [hl]
+      refine ⟨fun _ => ⟨?_, ?_, fun j hj => by simpa using this j hj⟩, by simp⟩
+      · first | trivial | exact hc
+      · first | trivial | rfl
+    | error f =>
+      simp only [heads2] at hl
+      simp only [hl]
+      exact ⟨by simp, by simp⟩
+  · simp [hc]
+
+/-- **The setup plan is complete before a pipe is returned.** If `_newPipe` returns a pipe, the
+    whole plan of the protocol it serves was written first (user commands can only be issued on the
+    returned pipe): RESP3 serving ⇒ exactly `plan3` was sent; RESP2 serving ⇒ `plan2` was sent
+    after nothing or after the complete RESP3 attempt. -/
+theorem serving_sent_full_plan (o : Opt) (r2ps : Bool) (rs3 rs2 : Nat → Reply) (u p : String)
+    (hc : creds o = some (u, p)) :
+    ((connect o r2ps rs3 rs2).res = .serving true → (connect o r2ps rs3 rs2).sent = plan3 o u p) ∧
+    ((connect o r2ps rs3 rs2).res = .serving false →
+      (connect o r2ps rs3 rs2).sent = plan2 o u p ∨ (connect o r2ps rs3 rs2).sent = plan3 o u p ++ plan2 o u p) := by
+  unfold connect
+  simp only [hc]
+  split
+  · exact ⟨fun h => absurd h (fallback_cases o u p [] rs2).2,
+      fun h => .inl (by simpa using ((fallback_cases o u p [] rs2).1 h).2.1)⟩
+  · split
+    · exact ⟨by simp, by simp⟩
+    · split
+      · exact ⟨fun h => absurd h (fallback_cases o u p _ rs2).2,
+          fun h => .inr ((fallback_cases o u p _ rs2).1 h).2.1⟩
+      · exact ⟨fun _ => rfl, by simp⟩
+
+/-- **RESP2 only after HELLO was rejected.** A pipe serving RESP2 exists only if RESP2 was asked for
+    (`AlwaysRESP2`, or the pipe is the RESP2 Pub/Sub helper of a RESP2 connection), or a checked
+    reply of the RESP3 attempt was an error matching `unknown command 'HELLO'`, or the reply to
+    HELLO 3 did not announce protocol >= 3. Client-side caching must be disabled for it. -/
+theorem resp2_only_after_hello_rejected (o : Opt) (r2ps : Bool) (rs3 rs2 : Nat → Reply)
+    (h : (connect o r2ps rs3 rs2).res = .serving false) :
+    o.disableCache = true ∧
+    (o.alwaysResp2 = true ∨ r2ps = true ∨ protoOf (rs3 0) < 3 ∨
+      ∃ u p, creds o = some (u, p) ∧ ∃ j, j < (heads3 o u p).length ∧ rs3 j = .rerr true) := by
+  unfold connect at h
+  split at h
+  · simp at h
+  · rename_i u p hc
+    split at h
+    · rename_i h2
+      refine ⟨((fallback_cases o u p [] rs2).1 h).1, ?_⟩
+      simp only [Bool.or_eq_true] at h2
+      rcases h2 with h2 | h2
+      · exact .inl h2
+      · exact .inr (.inl h2)
+    · dsimp only at h
+      split at h
+      · simp at h
+      · rename_i r2 hl
+        split at h
+        · rename_i hr
+          refine ⟨((fallback_cases o u p _ rs2).1 h).1, ?_⟩
+          simp only [Bool.or_eq_true, decide_eq_true_eq] at hr
+          rcases hr with hr | hr
+          · subst hr
+            rcases loop3_ok_true o.azInfo (heads3 o u p) rs3 0 false (by simpa [loop3, heads3] using hl) with h0 | ⟨j, hj, hrj⟩
+            · cases h0
+            · exact .inr (.inr (.inr ⟨u, p, hc, j, hj, by simpa using hrj⟩))
+          · exact .inr (.inr (.inl hr))
+        · simp at h
+
+/-- **A failed setup step fails the connection.** If a pipe is returned, every reply whose index is
+    below `checked` (all but the two trailing CLIENT SETINFO replies, `heads_are_literals`) was
+    error-free, except: the reply to READONLY is ignored; in the RESP2 sequence an error matching
+    `unknown command 'HELLO'` is ignored (meant for HELLO 2 on old servers). A RESP3 pipe saw
+    HELLO answered by a map announcing protocol >= 3. -/
+theorem failed_step_fails_conn (o : Opt) (r2ps : Bool) (rs3 rs2 : Nat → Reply) (u p : String)
+    (hc : creds o = some (u, p)) :
+    ((connect o r2ps rs3 rs2).res = .serving true →
+      3 ≤ protoOf (rs3 0) ∧
+      ∀ j (hj : j < (heads3 o u p).length), (heads3 o u p)[j] = .readonly ∨ err3 o.azInfo j (rs3 j) = .none) ∧
+    ((connect o r2ps rs3 rs2).res = .serving false →
+      ∀ j (hj : j < (heads2 o u p).length), (heads2 o u p)[j] = .readonly ∨ (rs2 j ≠ .ioerr ∧ rs2 j ≠ .rerr false)) := by
+  unfold connect
+  simp only [hc]
+  split
+  · exact ⟨fun h => absurd h (fallback_cases o u p [] rs2).2, fun h => ((fallback_cases o u p [] rs2).1 h).2.2⟩
+  · split
+    · exact ⟨by simp, by simp⟩
+    · rename_i r2 hl
+      split
+      · exact ⟨fun h => absurd h (fallback_cases o u p _ rs2).2, fun h => ((fallback_cases o u p _ rs2).1 h).2.2⟩
+      · rename_i hr
+        simp only [Bool.or_eq_true, decide_eq_true_eq, not_or, Bool.not_eq_true, Nat.not_lt] at hr
+        obtain ⟨hr2, hproto⟩ := hr
+        subst hr2
+        have := loop3_ok_false o.azInfo (heads3 o u p) rs3 0 false (by simpa [loop3, heads3] using hl)
+        exact ⟨fun _ => ⟨hproto, fun j hj => by simpa using this.2 j hj⟩, by simp⟩
+
+/-- a credentials callback that fails fails the connection before anything is written -/
+theorem cred_error_sends_nothing (o : Opt) (r2ps : Bool) (rs3 rs2 : Nat → Reply) (h : o.credFn = some none) :
+    connect o r2ps rs3 rs2 = ⟨[], .failed .cred⟩ := by
+  simp [connect, creds, h]
+
+private theorem evalAtom_creds (o : Opt) (a b : String) (f : Option (Option (String × String))) (u p : String) :
+    evalAtom { o with username := a, password := b, credFn := f } u p = evalAtom o u p := by
+  funext x; cases x <;> rfl
+
+private theorem substCmd_creds (o : Opt) (a b : String) (f : Option (Option (String × String))) (u p : String) :
+    substCmd { o with username := a, password := b, credFn := f } u p = substCmd o u p := by
+  funext c
+  have : substTok { o with username := a, password := b, credFn := f } u p = substTok o u p := by
+    funext t; cases t <;> rfl
+  simp only [substCmd, this]
+
+/-- **Dynamic credentials are used.** With `AuthCredentialsFn` returning (u, p) the connection does
+    exactly what it does with static `Username = u`, `Password = p`: the static fields are ignored
+    and (u, p) is what HELLO 3 … AUTH / AUTH carries (`credentials_first`). -/
+theorem dynamic_credentials_used (o : Opt) (r2ps : Bool) (rs3 rs2 : Nat → Reply) (u p : String) :
+    connect { o with credFn := some (some (u, p)) } r2ps rs3 rs2 =
+    connect { o with username := u, password := p, credFn := none } r2ps rs3 rs2 := by
+  have e1 := evalAtom_creds o o.username o.password (some (some (u, p))) u p
+  have e2 := evalAtom_creds o u p none u p
+  have s1 := substCmd_creds o o.username o.password (some (some (u, p))) u p
+  have s2 := substCmd_creds o u p none u p
+  simp only [connect, creds, fallback, plan3, plan2, e1, e2, s1, s2]
+
+/-! ### sentinel connections, NewClient, and the pin of the hand-modelled part -/
+
+/-- `newSentinelOpt` replaces user name, password and client name by the sentinel ones and never
+    selects a database; nothing else the setup plan reads is changed (AuthCredentialsFn is kept, so
+    dynamic credentials also apply to sentinel connections). -/
+theorem sentinel_assign_pinned : sentinelAssign =
+    [("Username", "o.Sentinel.Username"), ("Password", "o.Sentinel.Password"), ("ClientName", "o.Sentinel.ClientName"),
+     ("Dialer", "o.Sentinel.Dialer"), ("TLSConfig", "o.Sentinel.TLSConfig"), ("SelectDB", "0")] := rfl
+
+theorem sentinel_never_selects (o : Opt) (su sp sn : String) (u p : String) :
+    evalAtom (sentinelOpt o su sp sn) u p .selDB = false := rfl
+
+/-- fields of ClientOption the setup plan reads -/
+def sessionFields : List String :=
+  ["Username", "Password", "AuthCredentialsFn", "ClientName", "SelectDB", "ReplicaOnly", "Sentinel", "Sentinel.MasterSet",
+   "ClientNoTouch", "ClientNoEvict", "Standalone", "Standalone.EnableRedirect", "EnableReplicaAZInfo", "AZFromInfo",
+   "DisableCache", "ClientTrackingOptions", "ClientSetInfo", "AlwaysRESP2", "OnInvalidations"]
+
+/-- NewClient's defaulting does not touch any field the setup plan reads -/
+theorem newclient_keeps_session_fields : ∀ f ∈ sessionFields, f ∉ newClientAssigns ∧ ("&option." ++ f) ∉ newClientAssigns := by
+  decide
+
+/-- the hand-modelled rest of `_newPipe` (credential resolution, both reply loops, protocol decision)
+    is the text this model was written against -/
+theorem residual_pinned : residualSha = 584431374341004324629204247829481438379575598244340499344098101053003912405 := rfl
+
+/-! ### non-vacuity -/
+
+example : (connect { password := "pw", clientName := "n", selectDB := 2 } false (fun i => if i = 0 then .map 3 else .str) (fun _ => .str)).res = .serving true := by decide
+example : (connect { password := "pw", disableCache := true } false (fun i => if i = 0 then .rerr true else .str) (fun _ => .str)) =
+    ⟨[["HELLO", "3", "AUTH", "default", "pw"], ["CLIENT", "SETINFO", "LIB-NAME", "rueidis"], ["CLIENT", "SETINFO", "LIB-VER", libVer],
+      ["AUTH", "pw"], ["HELLO", "2"], ["CLIENT", "SETINFO", "LIB-NAME", "rueidis"], ["CLIENT", "SETINFO", "LIB-VER", libVer]], .serving false⟩ := by decide
+example : (connect { selectDB := 2 } false (fun i => if i = 0 then .map 3 else if i = 2 then .rerr false else .str) (fun _ => .str)).res = .failed .err := by decide
 
 end Rv.C47
